@@ -2,6 +2,7 @@ package main
 
 import (
 	"fmt"
+	"sort"
 	"strings"
 )
 
@@ -122,6 +123,9 @@ func registerHarnessAPI(e *Engine) {
 				t := TVar(name+"."+h.Name, SStr)
 				if h.Class == "G" || h.Class == "GS" {
 					m.freshAtoms[t] = true
+				}
+				if pv, ok := preferredValue(h.Class, h.Name); ok {
+					m.prefs[t] = pv
 				}
 				m.recordInput(name+"."+h.Name, mkStrT(t))
 			}
@@ -275,23 +279,67 @@ func (m *Machine) assert(c *Term, id string) {
 // checkModel: satisfiability with a model; constraints of non-vocabulary atoms and
 // regexp definitions are added so that the model is a faithful concrete input.
 func (m *Machine) checkModel(q []*Term) (Result, *Model) {
+	return checkModelWith(m.solver, m.eng, m.freshAtoms, m.prefs, q)
+}
+
+func checkModelWith(solver *Solver, e *Engine, fresh map[*Term]bool, prefs map[*Term]string, q []*Term) (Result, *Model) {
 	q2 := append([]*Term{}, q...)
-	q2 = append(q2, m.modelConstraints(q)...)
-	r, mod := m.solver.Check(q2, true)
+	q2 = append(q2, modelConstraintsFor(e, fresh, q)...)
+	// witness hygiene: prefer distinctive values for free atoms when they are consistent
+	vars := subterms(q2, func(t *Term) bool { return t.kind == KVar && t.sort == SStr })
+	for _, v := range vars {
+		if strings.HasPrefix(v.op, "line!") {
+			continue
+		}
+		q2 = append(q2, TInRe(v, `(re.* (re.range " " "~"))`))
+	}
+	var pq []*Term
+	for v, val := range prefs {
+		pq = append(pq, TEq(v, TStr(val)))
+	}
+	sort.Slice(pq, func(i, j int) bool { return pq[i].id < pq[j].id })
+	if len(pq) > 0 {
+		if r, mod := solver.Check(append(append([]*Term{}, q2...), pq...), true); r == Sat && mod != nil {
+			mod.UF = e.evalUF
+			return r, mod
+		}
+		// greedy: keep the preferences that are individually consistent
+		acc := append([]*Term{}, q2...)
+		if len(pq) <= 8 {
+			for _, p := range pq {
+				if r, _ := solver.Check(append(append([]*Term{}, acc...), p), false); r == Sat {
+					acc = append(acc, p)
+				}
+			}
+			if r, mod := solver.Check(acc, true); r == Sat && mod != nil {
+				mod.UF = e.evalUF
+				return r, mod
+			}
+		}
+	}
+	r, mod := solver.Check(q2, true)
 	if r == Sat && mod != nil {
-		mod.UF = m.eng.evalUF
+		mod.UF = e.evalUF
+	}
+	if r == Unsat {
+		// the hygiene constraints are not part of the claim: retry without them
+		q3 := append(append([]*Term{}, q...), modelConstraintsFor(e, fresh, q)...)
+		r, mod = solver.Check(q3, true)
+		if r == Sat && mod != nil {
+			mod.UF = e.evalUF
+		}
 	}
 	return r, mod
 }
 
-func (m *Machine) modelConstraints(q []*Term) []*Term {
+func modelConstraintsFor(e *Engine, fresh map[*Term]bool, q []*Term) []*Term {
 	var out []*Term
 	vars := subterms(q, func(t *Term) bool { return t.kind == KVar && t.sort == SStr })
 	for _, v := range vars {
-		if m.freshAtoms[v] {
+		if fresh[v] {
 			// a non-vocabulary name: constrain away from the constants it was compared with
 			for _, c := range subterms(q, func(t *Term) bool { return t.kind == KConst && t.sort == SStr }) {
-				if m.eng.vocab[c.s] {
+				if e.vocab[c.s] {
 					out = append(out, TNot(TEq(v, c)))
 				}
 			}
@@ -317,3 +365,32 @@ func init() {
 		}
 	})
 }
+
+// preferredValue: distinctive witness values per hole class (used only to make replays
+// readable and coincidence-free; never part of a verdict query).
+func preferredValue(class, name string) (string, bool) {
+	switch class {
+	case "S":
+		return "S3CR3T-" + name + "-x", true
+	case "E":
+		return "s3cr3t." + name + "@corp-" + name + ".example", true
+	case "D":
+		return "2031-07-0" + string('1'+byte(len(name)%8)) + "T11:22:33.444Z", true
+	case "O":
+		return "5f8a" + fmt.Sprintf("%020x", len(name)+0xabcde), true
+	case "B64":
+		return "c2VjcmV0LXBheWxvYWQ=", true
+	case "G", "F", "GS":
+		return "fld_" + name, true
+	case "DB":
+		return "proddb_" + name, true
+	case "COLL":
+		return "customers_" + name, true
+	case "N":
+		return "918273645" + strings.TrimLeft(name, "n"), true
+	case "IP":
+		return "203.0.113.77:51234", true
+	}
+	return "", false
+}
+
